@@ -83,6 +83,14 @@ func runC10(c *fw.Case) {
 			opt.StateInitConcurrency = c.Draw(5, "preload.n")
 			preload = true
 		}
+		// the documentation allows the same file for both roles
+		sameState := false
+		if _, err := os.Stat(state); err == nil && !noState && !preload && c.ChanceAdded(1, 4, "c10.samestate") {
+			opt.StateInitFile = state
+			opt.StateInitConcurrency = c.Draw(5, "preload.n")
+			preload, sameState = true, true
+			c.Probe("state file used for init and save")
+		}
 		nreaders := c.Range(1, 4, "readers")
 		plans := make([][]c10Read, nreaders)
 		for i := range plans {
@@ -245,6 +253,12 @@ func runC10(c *fw.Case) {
 		if sr.Hang {
 			c.Violate("hang", "SparseFile", "phase %d: readers blocked forever: %v", phase, sr.RT.HangTasks)
 			return
+		}
+		if newErr != nil && sameState {
+			// starting over with a blank cache file removes the state file it was asked to pre-load from: an error,
+			// which is one of the two outcomes the property allows
+			c.Probe("same-state-file: NewSparseFile failed")
+			continue
 		}
 		if newErr != nil {
 			c.Violate("open-failed", "NewSparseFile", "phase %d: %v", phase, newErr)
